@@ -18,7 +18,7 @@ COMPILE_DIR = os.path.join(HARNESS, "genlab_compile", "src", "gen")
 
 COPY_KEYS = ["P1", "P2", "P4", "P8", "P16", "Odd3", "Odd12", "Odd24", "Over16", "Zst", "ZstA8"]
 TRACKED_KEYS = ["Tracked", "TrackedOdd", "TrackedBig", "Str", "VecU"]
-AUTO_KEYS = ["RcT", "CellT", "PtrT", "GuardT"]
+AUTO_KEYS = ["RcT", "CellT", "PtrT", "GuardT", "FnRc", "MxCell"]
 ZST_KEYS = ["Zst", "ZstA8", "ZstDrop"]
 ALL_KEYS = COPY_KEYS + TRACKED_KEYS + ["ZstDrop"]
 
@@ -105,6 +105,8 @@ def core_definitions():
     ds.append(("auto_rc", [], [A("a", "P4"), C(), A("r", "RcT"), C(), R("r"), C()]))
     ds.append(("auto_cell", [], [A("c", "CellT"), A("a", "P8"), C(), R("c"), A("g", "GuardT"), C()]))
     ds.append(("auto_ptr", ["clone"], [A("a", "Tracked"), C(), A("p", "PtrT"), C()]))
+    # Send + Sync types whose NAMES mention a type that is neither (C14, converse direction)
+    ds.append(("auto_generic", ["clone"], [A("a", "P4"), A("f", "FnRc"), C(), A("m", "MxCell"), C(), R("f"), C()]))
     # through a pre-computed table: typed and dynamic entry points
     ds.append(("via_table", ["serde"], [A("a", "P8", True, "dynamic"), A("b", "TrackedOdd", False, "dynamic"), A("c", "P2"), C(),
                                         R("a"), A("d", "Str", False, "dynamic"), C()]))
